@@ -359,12 +359,148 @@ Definition ser_rule (v : dict) (r : rule) : list stmt :=
   match r with
   | RNs n => match ser_ns n with Some (p, u) => [SNs p u] | None => [] end
   | RStyle its => [SStyle (map (ser_item v) its)]
+  | RMedia [] => []                        (* an @media block without rules is not written *)
   | RMedia rs => [SMedia (map (map (ser_item v)) rs)]
   | RCharset => [SCharset]
   | RComment => [SComment]
   end.
 Definition ser (sh : sheet) : list stmt := flat_map (ser_rule (view sh)) sh.
 Definition reparse (sh : sheet) : sheet := fst (parse (ser sh)).
+
+(* ------------------------------------------------------------------ selector-side operations
+   Selector.selectorText (in place), SelectorList.__setitem__/selectorText/appendSelector/__delitem__,
+   CSSStyleRule.selectorText, insertion/deletion of rule sets at top level (cssstylesheet.py:768-784) and inside
+   @media (cssrule.py:192-280, with the sheet's namespaces since "fix: CSSMediaRule/CSSPageRule.insertRule(text)
+   parses the text with the namespaces of the rule's style sheet").  A rule set is a list of one-item selectors.
+   Every new selector is resolved against the sheet's view; an undeclared prefix raises NamespaceErr. *)
+Inductive addr := ATop (r : nat) | AIn (r j : nat).
+
+Fixpoint set_nth {A} (i : nat) (x : A) (l : list A) : list A :=
+  match l, i with
+  | [], _ => []
+  | _ :: t, O => x :: t
+  | y :: t, S j => y :: set_nth j x t
+  end.
+Definition get_style (a : addr) (sh : sheet) : option (list item) :=
+  match a with
+  | ATop r => match nth_error sh r with Some (RStyle its) => Some its | _ => None end
+  | AIn r j => match nth_error sh r with Some (RMedia rs) => nth_error rs j | _ => None end
+  end.
+Definition put_style (a : addr) (its : list item) (sh : sheet) : sheet :=
+  match a with
+  | ATop r => set_nth r (RStyle its) sh
+  | AIn r j => match nth_error sh r with
+               | Some (RMedia rs) => set_nth r (RMedia (set_nth j its rs)) sh
+               | _ => sh
+               end
+  end.
+
+Definition kind_eqb (a b : kind) : bool :=
+  match a, b with KType, KType | KUniv, KUniv | KAttr, KAttr | KNeg, KNeg => true | _, _ => false end.
+Definition pform_eqb (a b : pform) : bool :=
+  match a, b with
+  | FNone, FNone | FEmpty, FEmpty | FStar, FStar => true
+  | FPfx p, FPfx q => eqs p q
+  | _, _ => false
+  end.
+Definition pitem_eqb (a b : pitem) : bool :=
+  match a, b with
+  | POther, POther => true
+  | PSel k f n, PSel k2 f2 n2 => kind_eqb k k2 && pform_eqb f f2 && eqs n n2
+  | _, _ => false
+  end.
+
+Inductive sop :=
+| SReplace (a : addr) (i : nat) (pi : pitem)          (* selector.selectorText = t  /  selectorList[i] = t *)
+| SListText (a : addr) (l : list pitem)               (* selectorList.selectorText = t  /  rule.selectorText = t *)
+| SAppend (a : addr) (pi : pitem)                     (* selectorList.appendSelector(t): equal spellings are dropped *)
+| SDelItem (a : addr) (i : nat)                       (* del selectorList[i]   (issued only when >= 2 selectors) *)
+| SInsStyle (l : list pitem) (idx : option nat)       (* sheet.insertRule(text, idx) / sheet.add(text) *)
+| SInsInner (r : nat) (l : list pitem) (idx : option nat)   (* media.insertRule(text, idx) / media.add(text) *)
+| SDelStyle (a : addr).                               (* sheet.deleteRule(r) on a rule set / media.deleteRule(j) *)
+
+Definition blocks_body (r : rule) : bool := is_charset r || is_ns r.
+
+Definition sstep (o : sop) (sh : sheet) : sheet * outcome :=
+  let v := view sh in
+  match o with
+  | SReplace a i pi =>
+      match get_style a sh with
+      | None => (sh, Skip)
+      | Some its =>
+          if Nat.ltb i (length its) then
+            match resolve v pi with
+            | None => (sh, Raise ENamespace)
+            | Some it => (put_style a (set_nth i it its) sh, Ok)
+            end
+          else (sh, Skip)
+      end
+  | SListText a l =>
+      match get_style a sh with
+      | None => (sh, Skip)
+      | Some _ => match resolve_all v l with
+                  | None => (sh, Raise ENamespace)
+                  | Some its' => (put_style a its' sh, Ok)
+                  end
+      end
+  | SAppend a pi =>
+      match get_style a sh with
+      | None => (sh, Skip)
+      | Some its =>
+          match resolve v pi with
+          | None => (sh, Raise ENamespace)
+          | Some it =>
+              (put_style a (filter (fun x => negb (pitem_eqb (ser_item v x) (ser_item v it))) its ++ [it]) sh, Ok)
+          end
+      end
+  | SDelItem a i =>
+      match get_style a sh with
+      | None => (sh, Skip)
+      | Some its => if Nat.ltb i (length its) && Nat.ltb 1 (length its)
+                    then (put_style a (remove_at i its) sh, Ok) else (sh, Skip)
+      end
+  | SInsStyle l idx =>
+      match idx with
+      | None => match resolve_all v l with
+                | None => (sh, Raise ENamespace)
+                | Some its => (sh ++ [RStyle its], Ok)
+                end
+      | Some i =>
+          if Nat.ltb (length sh) i then (sh, Raise EIndex)
+          else match resolve_all v l with
+               | None => (sh, Raise ENamespace)
+               | Some its => if existsb blocks_body (skipn i sh) then (sh, Raise EHier)
+                             else (insert_at i (RStyle its) sh, Ok)
+               end
+      end
+  | SInsInner r l idx =>
+      match nth_error sh r with
+      | Some (RMedia rs) =>
+          let i := match idx with None => length rs | Some i => i end in
+          if Nat.ltb (length rs) i then (sh, Raise EIndex)
+          else match resolve_all v l with
+               | None => (sh, Raise ENamespace)
+               | Some its => (set_nth r (RMedia (insert_at i its rs)) sh, Ok)
+               end
+      | _ => (sh, Skip)
+      end
+  | SDelStyle (ATop r) =>
+      match nth_error sh r with
+      | Some (RStyle _) => (remove_at r sh, Ok)
+      | _ => (sh, Skip)
+      end
+  | SDelStyle (AIn r j) =>
+      match nth_error sh r with
+      | Some (RMedia rs) => if Nat.ltb j (length rs) then (set_nth r (RMedia (remove_at j rs)) sh, Ok) else (sh, Skip)
+      | _ => (sh, Skip)
+      end
+  end.
+
+(* histories that mix namespace operations and selector-side operations *)
+Inductive mop := MN (o : op) | MS (o : sop).
+Definition mstep (o : mop) (sh : sheet) : sheet * outcome :=
+  match o with MN o => step o sh | MS o => sstep o sh end.
+Definition mrun (ops : list mop) (sh : sheet) : sheet := fold_left (fun s o => fst (mstep o s)) ops sh.
 
 (* ------------------------------------------------------------------ observations *)
 Definition rule_items (r : rule) : list item :=
